@@ -2,7 +2,8 @@
 (* Sequential behaviours of StoreGuard as scripts for the real constructor:  *)
 (* every sequence of D operations of two threads over the alphabet           *)
 (*   c  create an in-memory store, cf create a file-backed store, cs create   *)
-(*      through a subclass of the store class                 (TryCreate)    *)
+(*      through a subclass of the store class, cd create by calling the      *)
+(*      public constructor directly                           (TryCreate)    *)
 (*   fa constructor with inconsistent arguments, fo open a file that is not  *)
 (*      NetCDF, fm open a missing file    (TryFail)                          *)
 (*   x  close the thread's newest store   (Close)                            *)
@@ -13,11 +14,11 @@ CONSTANTS D, Rand
 VARIABLE h
 gvars == <<avars, h>>
 FailOps == {"fa", "fo", "fm"}
-Ops == {"c", "cf", "cs", "x"} \cup FailOps
+Ops == {"c", "cf", "cs", "cd", "x"} \cup FailOps
 GInit == AInit /\ h = <<>>
 Do(t, op) ==
   /\ Len(h) < D
-  /\ CASE op \in {"c", "cf", "cs"} -> TryCreate(t) /\ h' = Append(h, [t |-> t, op |-> op, ok |-> Outcome(t, owner)])
+  /\ CASE op \in {"c", "cf", "cs", "cd"} -> TryCreate(t) /\ h' = Append(h, [t |-> t, op |-> op, ok |-> Outcome(t, owner)])
        [] op = "x" -> Close(t) /\ h' = Append(h, [t |-> t, op |-> op, ok |-> "closed"])
        [] OTHER -> TryFail(t) /\ h' = Append(h, [t |-> t, op |-> op, ok |-> FailOutcome(t, owner)])
 Pick(n) == <<RandomElement(Threads), RandomElement(Ops)>>
